@@ -94,6 +94,8 @@ for _sel in ("keys", "values", "entries"):
          "in " + _sel + " y>>", 2)
     _add("lc product " + _sel, "[[a, b] for a in " + _sel + " x for b in " +
          _sel + " y]", 2)
+_add("while later", "do def c = TRUE; def n = 0; while c do n += 1; c = x; "
+     "if n > 3 then break; end; n end", 1)
 _add("assign undefined", "do never_defined_q = x end", 1)
 _add("opassign undefined", "do never_defined_q += x end", 1)
 _add("destr assign undefined", "do [never_defined_q] = x end", 1)
